@@ -12,16 +12,28 @@ export CGO_ENABLED=0
 HERE="$(cd "$(dirname "$0")" && pwd)"
 MC="$HERE/mc"
 export VERIF_DIR="$HERE"
-REPO=/repo
+# Where evidence and replays are written (default: next to run.sh). Only the mutant/seed
+# drivers override it, so that a run against a modified copy does not replace the evidence
+# of the unchanged tree.
+export VERIF_OUT_DIR="${VERIF_OUT_DIR:-$HERE}"
+# The repository the checks are built from. Registered commands never set VERIF_REPO: they
+# build from /repo's current working tree. The mutant/seed drivers point it at a scratch
+# worktree of /repo with one patch applied.
+REPO="${VERIF_REPO:-/repo}"
+MODFLAG=""
 
 build() { # $1 = output dir ; builds $1/check ; $2 = mode (base|sched)
   local out="$1" mode="${2:-base}"
   mkdir -p "$out/ov-$mode"
+  if [ "$REPO" != /repo ]; then
+    sed "s#=> /repo#=> $REPO#" "$MC/go.mod" > "$out/go.mod"; cp "$MC/go.sum" "$out/go.sum"
+    MODFLAG="-modfile=$out/go.mod"
+  fi
   (cd "$MC" && go run ./cmd/ovgen -repo "$REPO" -out "$out/ov-$mode" -extra "$MC/overlayfiles" -mode "$mode") 2>"$out/ovgen-$mode.log" || {
     echo "INTERNAL: overlay generation failed" >&2; cat "$out/ovgen-$mode.log" >&2; return 2; }
   local tags=""
   [ "$mode" = sched ] && tags="-tags verifsched"
-  (cd "$MC" && go build $tags -overlay "$out/ov-$mode/overlay.json" -o "$out/check-$mode" ./cmd/check) 2>"$out/build-$mode.log" || {
+  (cd "$MC" && go build $MODFLAG $tags -overlay "$out/ov-$mode/overlay.json" -o "$out/check-$mode" ./cmd/check) 2>"$out/build-$mode.log" || {
     echo "INTERNAL: build of the check binary against /repo failed (mode $mode); not a property verdict" >&2
     head -50 "$out/build-$mode.log" >&2; return 2; }
   return 0
@@ -51,7 +63,7 @@ build "$T" "$MODE" || exit 2
 export VERIF_CHECK_BIN="$T/check-$MODE"
 if [ "$ID" = C19 ]; then
   # sub-check 3: free-running race-detector build of the same operations (plain build, no shim)
-  if (cd "$MC" && CGO_ENABLED=1 go build -race -o "$T/c19race" ./cmd/c19race) 2>"$T/race-build.log"; then
+  if (cd "$MC" && CGO_ENABLED=1 go build $MODFLAG -race -o "$T/c19race" ./cmd/c19race) 2>"$T/race-build.log"; then
     export VERIF_RACE_BIN="$T/c19race"
   else
     echo "note: -race build unavailable; C19 sub-check 3 skipped" >&2; head -5 "$T/race-build.log" >&2
